@@ -41,6 +41,14 @@ pub fn check_proposal<F, N>(wd: &mut World, r: &mut Reporter, q: &Req, v: &View,
     let admitted = q.admitted();
     let mut seen: BTreeSet<InKey> = BTreeSet::new();
     let mut pay_total_all: u128 = 0;
+    // true roots per (pool, anchor); witnesses are verified for at most WIT_CAP inputs per proposal
+    // (evenly spread over the selection), all other clauses for every input
+    let mut roots: BTreeMap<(usize, u32), [u8; 32]> = BTreeMap::new();
+    const WIT_CAP: usize = 12;
+    let n_shielded: usize = p.steps().iter().map(|s| s.shielded_inputs().map_or(0, |x| x.notes().len())).sum();
+    let stride = (n_shielded + WIT_CAP - 1) / WIT_CAP.max(1);
+    let stride = stride.max(1);
+    let mut shielded_idx = 0usize;
     // value of every step's outputs, for later steps that consume them
     let mut step_payments: Vec<BTreeMap<usize, u64>> = vec![];
     let mut step_change: Vec<Vec<u64>> = vec![];
@@ -127,10 +135,18 @@ pub fn check_proposal<F, N>(wd: &mut World, r: &mut Reporter, q: &Req, v: &View,
                     bad!(format!("C08:{kind}:anchor-not-on-chain"), "step {si}: anchor {a} is not a height of the current chain");
                     continue;
                 }
-                match wd.witness(pool, pos, a) {
+                shielded_idx += 1;
+                if (shielded_idx - 1) % stride != 0 {
+                    r.count("witness_checks_skipped_by_cap", 1);
+                    continue;
+                }
+                let t_w = std::time::Instant::now();
+                let wit = wd.witness(pool, pos, a);
+                r.count("us_witness", t_w.elapsed().as_micros() as u64);
+                match wit {
                     WitRes::Path(path) => {
                         r.count("witness_verifications", 1);
-                        let want = wd.sim.root_at(pool, a);
+                        let want = *roots.entry((pool.idx(), a)).or_insert_with(|| wd.sim.root_at(pool, a));
                         let got = verify_path(pool, nv.cm, pos, &path);
                         if got != Some(want) {
                             bad!(f1sig("witness-invalid"), "step {si}: note {} at position {pos}: wallet path at anchor {a} hashes to {:?}, chain root {}", ik.short(), got.map(hex::encode), hex::encode(want));
@@ -386,6 +402,151 @@ pub fn create<N: std::fmt::Debug>(
         });
         r.count("pending_transactions_stored", 1);
     }
+    wd.creates_done += 1;
+    true
+}
+
+/// Does creating this proposal's transactions need Orchard-family (halo2) proofs?
+pub fn needs_orchard_proofs<F, N>(p: &Proposal<F, N>) -> bool {
+    use zcash_protocol::{PoolType, ShieldedPool};
+    let of = |pt: PoolType| matches!(pt, PoolType::Shielded(ShieldedPool::Orchard) | PoolType::Shielded(ShieldedPool::Ironwood));
+    p.steps().iter().any(|s| {
+        s.shielded_inputs().map_or(false, |si| si.notes().iter().any(|n| n.note().pool() != ShieldedPool::Sapling))
+            || s.payment_pools().values().any(|pt| of(*pt))
+            || s.balance().proposed_change().iter().any(|c| of(c.output_pool()))
+    })
+}
+
+/// Fallback for proposals whose inputs are all Orchard / Ironwood notes (real halo2 proving is far
+/// too slow for more than a handful): the harness builds the transaction itself with the orchard
+/// builder (real nullifiers, real witnesses from the wallet's tree, one output back to the account's
+/// internal address), attaches dummy proof / signatures, and stores it through
+/// `WalletWrite::store_transactions_to_be_sent`. The wallet never verifies proofs of its own
+/// transactions, so for the selection predicates this is a stored pending transaction like any other.
+pub fn fabricate(wd: &mut World, r: &mut Reporter, q: &Req, p: &crate::req::NoteProposal, inputs: &[Vec<InKey>], expiry: Option<u32>) -> bool {
+    use orchard::primitives::redpallas::{Binding, Signature, SpendAuth};
+    use zcash_client_backend::data_api::{SentTransaction, WalletWrite};
+    use zcash_client_backend::wallet::Note;
+    use zcash_primitives::transaction::{Authorized, TransactionData, TxVersion};
+    use zcash_protocol::consensus::BranchId;
+    use zcash_protocol::value::{ZatBalance, Zatoshis};
+
+    if p.steps().len() != 1 {
+        return false;
+    }
+    let step = p.steps().first();
+    let Some(si) = step.shielded_inputs() else { return false };
+    let Some(anchor) = step.anchor_height().map(u32::from) else { return false };
+    if !step.transparent_inputs().is_empty() || si.notes().iter().any(|n| matches!(n.note(), Note::Sapling(_))) {
+        return false;
+    }
+    let target = u32::from(p.min_target_height());
+    let branch = BranchId::for_height(&wd.sim.net, BlockHeight::from_u32(target));
+    let fvk = wd.sim.accounts[q.account].ofvk.clone();
+    let mut bundles: [Option<orchard::Bundle<orchard::bundle::Authorized, ZatBalance>>; 2] = [None, None];
+    for (bi, pool) in [vh_wallet::sim::Pool::Orchard, vh_wallet::sim::Pool::Ironwood].into_iter().enumerate() {
+        let notes: Vec<_> = si.notes().iter().filter(|n| pool_of(n.note().pool()) == pool).collect();
+        if notes.is_empty() {
+            continue;
+        }
+        let version = if pool == vh_wallet::sim::Pool::Ironwood {
+            orchard::bundle::BundleVersion::ironwood_v3()
+        } else {
+            match zcash_primitives::transaction::components::orchard::bundle_version_for_branch(branch, orchard::ValuePool::Orchard) {
+                Some(v) => v,
+                None => return false,
+            }
+        };
+        let Some(anchor_v) = Option::from(orchard::Anchor::from_bytes(wd.sim.root_at(pool, anchor))) else { return false };
+        let Ok(mut b) = orchard::builder::Builder::new(orchard::builder::BundleType::DEFAULT, version, version.default_flags(), anchor_v) else {
+            return false;
+        };
+        let mut total = 0u64;
+        for n in notes {
+            let Note::Orchard { note, .. } = n.note() else { return false };
+            let pos = u64::from(n.note_commitment_tree_position());
+            let WitRes::Path(path) = wd.witness(pool, pos, anchor) else { return false };
+            let auth: Option<Vec<orchard::tree::MerkleHashOrchard>> =
+                path.iter().map(|x| Option::from(orchard::tree::MerkleHashOrchard::from_bytes(x))).collect();
+            let Some(auth) = auth else { return false };
+            let Ok(auth): Result<[orchard::tree::MerkleHashOrchard; 32], _> = auth.try_into() else { return false };
+            let mp = orchard::tree::MerklePath::from_parts(pos as u32, auth);
+            if b.add_spend(fvk.clone(), *note, mp).is_err() {
+                r.count("fabricate_add_spend_failed", 1);
+                return false;
+            }
+            total += note.value().inner();
+        }
+        let fee = 15_000u64.min(total);
+        let to = fvk.address_at(0u32, zip32::Scope::Internal);
+        if b.add_change_output(fvk.clone(), None, to, orchard::value::NoteValue::from_raw(total - fee), [0u8; 512]).is_err() {
+            r.count("fabricate_add_output_failed", 1);
+            return false;
+        }
+        let built = match b.build::<ZatBalance>(&mut wd.rng) {
+            Ok(Some((bundle, _))) => bundle,
+            _ => {
+                r.count("fabricate_build_failed", 1);
+                return false;
+            }
+        };
+        let authd = built.map_authorization(
+            &mut (),
+            |_, _, _| Signature::<SpendAuth>::from([0u8; 64]),
+            |_, _| orchard::bundle::Authorized::from_parts(orchard::Proof::new(vec![0u8; 64]), Signature::<Binding>::from([0u8; 64])),
+        );
+        bundles[bi] = Some(authd);
+    }
+    let expiry_h = BlockHeight::from_u32(expiry.unwrap_or(target + 40));
+    let [ob, ib] = bundles;
+    let v6 = TxVersion::suggested_for_branch(branch) == TxVersion::V6;
+    let txd: TransactionData<Authorized> = if v6 {
+        TransactionData::from_parts_v6(branch, 0, expiry_h, None, None, ob, ib)
+    } else {
+        if ib.is_some() {
+            return false;
+        }
+        TransactionData::from_parts(TxVersion::V5, branch, 0, expiry_h, None, None, None, ob)
+    };
+    let tx = match guard(|| txd.freeze()) {
+        Ok(Ok(t)) => t,
+        _ => {
+            r.count("fabricate_freeze_failed", 1);
+            return false;
+        }
+    };
+    let acct = wd.w.accounts[q.account];
+    let created = time::OffsetDateTime::now_utc();
+    let sent = SentTransaction::new(&tx, created, p.min_target_height(), acct, &[], Zatoshis::const_from_u64(15_000), &[]);
+    let res = { let db = &mut wd.w.db; guard(|| db.store_transactions_to_be_sent(&[sent]).map_err(|e| format!("{e:?}"))) };
+    match res {
+        Ok(Ok(())) => {}
+        Ok(Err(e)) => {
+            r.count(&format!("fabricate_store_failed:{}", crate::req::err_class(&e)), 1);
+            return false;
+        }
+        Err(pn) => {
+            r.count("fabricate_store_panicked", 1);
+            r.note(format!("store_transactions_to_be_sent panicked: {}", vh_common::panic_class(&pn)));
+            return false;
+        }
+    }
+    let tb: TxIdBytes = *tx.txid().as_ref();
+    let ins: Vec<InKey> = inputs.first().cloned().unwrap_or_default();
+    let note_ins = crate::world::inkeys_notes(&ins);
+    let built = wd.built_from_tx(&tx, &note_ins);
+    if built.is_none() {
+        r.count("pending_not_minable", 1);
+    }
+    for k in &ins {
+        wd.m.locks.remove(k);
+    }
+    wd.m.wallet_txids.insert(tb);
+    let eh = u32::from(tx.expiry_height());
+    wd.log(json!({"op":"store_fabricated","txid":hex::encode(&tb[..4]),"expiry":eh,"inputs":ins.iter().map(|k| k.short()).collect::<Vec<_>>()}));
+    wd.m.pend.push(PendingM { txid: tb, account: q.account, inputs: ins, expiry: eh, built, mined_uid: None, ever_mined: false, counted_expired: false });
+    r.count("pending_transactions_stored", 1);
+    r.count("pending_stored_fabricated_orchard_family", 1);
     wd.creates_done += 1;
     true
 }
